@@ -15,7 +15,7 @@ from ..rules import norm as norm_
 META = {
     "level": "other",
     "technique": "control-dependence of `continue` on option fields (typed HIR), error-propagation classification of listing/read calls, expression shape of the summary counts, comparator truth tables in verify_rebuild",
-    "claim": "Decides that rebuild can only omit files the options exclude, that no listing/read error is turned into an empty or shorter file set, that the reported counts are computed from the measured lists, and that verification fails on count or content difference. Does not compare archive contents across version pairs. Also: every extracted file is re-added; listfile generation is disabled only on evidence from the re-added collection; the build phase is bypassed only by list_only; listed files are read by name. Wave 5: bool option fields are wired from the same-named flag; the summary's skipped count subtracts values of one enumeration (or saturates). Wave 6: verify_rebuild skips exactly the files extract_files_with_metadata skips, for every option pair / name class / flag word. Wave 7: every listing of rebuild.rs accounts for a (listfile) that does not name itself; Archive::list yields each table entry once; the comparison summary counts files (a set of names), not per-aspect differences. The builder's key-from-final-flags and size-operand rules are armed here too (rebuild re-adds encrypted files through write_file).",
+    "claim": "Decides that rebuild can only omit files the options exclude, that no listing/read error is turned into an empty or shorter file set, that the reported counts are computed from the measured lists, and that verification fails on count or content difference. Does not compare archive contents across version pairs. Also: every extracted file is re-added; listfile generation is disabled only on evidence from the re-added collection; the build phase is bypassed only by list_only; listed files are read by name. Wave 5: bool option fields are wired from the same-named flag; the summary's skipped count subtracts values of one enumeration (or saturates). Wave 6: verify_rebuild skips exactly the files extract_files_with_metadata skips, for every option pair / name class / flag word. Wave 7: every listing of rebuild.rs accounts for a (listfile) that does not name itself; Archive::list yields each table entry once; the comparison summary counts files (a set of names), not per-aspect differences. The builder's key-from-final-flags and size-operand rules are armed here too (rebuild re-adds encrypted files through write_file). Wave 8: the builder's never-expands and the cipher wrappers' early-return classes are armed here too; verification counts may be filtered counts of the target listing.",
     "note": "Trusted: Archive::list/read_file report failure through Result; ArchiveBuilder round-trip (C01).",
     "assumptions": ["files enumerated by list() are exactly the source's listed files"],
     "explanation": "rebuild.rs: rebuild_archive, extract_files_with_metadata, rebuild_with_files, verify_rebuild; the CLI rebuild command.",
